@@ -4,11 +4,15 @@ import (
 	"context"
 	"errors"
 	"fmt"
+	"sort"
 	"strings"
+	"sync/atomic"
+	"testing/fstest"
 	"time"
 
 	"github.com/risor-io/risor"
 	"github.com/risor-io/risor/compiler"
+	"github.com/risor-io/risor/importer"
 	"github.com/risor-io/risor/object"
 	"github.com/risor-io/risor/parser"
 	"github.com/risor-io/risor/verif/fw"
@@ -30,7 +34,12 @@ func deep(n) { return deep(n+1) + 1 }
 func wide() { return [1,2,3,4,5,6,7,8,9,10,11,12,13,14,15,16,17,18,19,20].map(func(x) { return loop(x) }) }
 func spin() { x := 0; for i := 0; i < 100000000; i++ { x++ }; return x }
 func useDefer(n) { defer func() { counter = counter + 100 }(); return loop(n) }
+func mkc(x) { f := func() { return x * 2 }; g := func() { return f() + 1 }; if x < 0 { error("neg-closure") }; return g() }
+func spinc(x) { f := func() { return x }; for i := 0; i < 100000000; i++ { x = x + 0 }; return f() }
+func imp(k) { import cmod; return cmod.value + cmod.pre + k }
 `
+
+const c07Module = "pre := 1\nmaybe_fail()\nvalue := 3\n"
 
 type invKind int
 
@@ -47,14 +56,15 @@ const (
 var kindNames = []string{"normal", "runtime-error", "host-panic", "frame-overflow", "stack-overflow", "cancelled", "deadline"}
 
 type invocation struct {
-	API      string // "RunCode" | "Call"
-	Kind     invKind
-	Src      string // RunCode payload
-	Fn       string // Call payload
-	Args     []int
-	IsLib    bool // RunCode of the library (state-carrying)
-	Stateful bool // a Call that changes globals and must be replayed on the model
-	OwnDelta int  // for cancelled/deadline: steps after start at which the fault lands
+	API        string // "RunCode" | "Call"
+	Kind       invKind
+	Src        string // RunCode payload
+	Fn         string // Call payload
+	Args       []int
+	IsLib      bool // RunCode of the library (state-carrying)
+	FailImport bool // the module imported by this call fails in its body
+	Stateful   bool // a Call that changes globals and must be replayed on the model
+	OwnDelta   int  // for cancelled/deadline: steps after start at which the fault lands
 	// stale cancels: earlier invocation index -> delta steps after this
 	// invocation's start
 	Stale map[int]int
@@ -118,7 +128,7 @@ func genHistory(g *sim.Stream, f *sim.Stream) []*invocation {
 			iv.API = "Call"
 			switch kind {
 			case kNormal:
-				switch g.Intn(5) {
+				switch g.Intn(7) {
 				case 0:
 					iv.Fn, iv.Args = "add", []int{g.Intn(100), g.Intn(100)}
 				case 1:
@@ -127,11 +137,24 @@ func genHistory(g *sim.Stream, f *sim.Stream) []*invocation {
 					iv.Fn, iv.Stateful = "bump", true
 				case 3:
 					iv.Fn = "wide"
-				default:
+				case 4:
 					iv.Fn, iv.Args, iv.Stateful = "useDefer", []int{g.Range(1, 60)}, true
+				case 5:
+					iv.Fn, iv.Args = "mkc", []int{g.Range(0, 50)}
+				default:
+					// a successful import is state the VM keeps (the module is cached)
+					iv.Fn, iv.Args, iv.Stateful = "imp", []int{g.Intn(9)}, true
 				}
 			case kRuntimeError:
-				iv.Fn, iv.Args = "fail", []int{g.Intn(20)}
+				switch g.Intn(3) {
+				case 0:
+					iv.Fn, iv.Args = "fail", []int{g.Intn(20)}
+				case 1:
+					iv.Fn, iv.Args = "mkc", []int{-1 - g.Intn(5)}
+				default:
+					// the imported module's body fails half-way
+					iv.Fn, iv.Args, iv.FailImport = "imp", []int{g.Intn(9)}, true
+				}
 			case kHostPanic:
 				iv.Fn, iv.Args = "hp", []int{g.Intn(3)}
 			case kFrameOverflow:
@@ -139,7 +162,11 @@ func genHistory(g *sim.Stream, f *sim.Stream) []*invocation {
 			case kStackOverflow:
 				iv.Fn = "big"
 			default:
-				iv.Fn = "spin"
+				if g.Bool() {
+					iv.Fn = "spin"
+				} else {
+					iv.Fn, iv.Args = "spinc", []int{g.Intn(9)}
+				}
 			}
 		} else {
 			iv.API = "RunCode"
@@ -228,7 +255,7 @@ func inspectOrNil(o object.Object) string {
 	if o == nil {
 		return "<nil object>"
 	}
-	return o.Inspect()
+	return safeInspect(o)
 }
 
 func compileSrc(src string, cfg *risor.Config) *compiler.Code {
@@ -244,7 +271,8 @@ func compileSrc(src string, cfg *risor.Config) *compiler.Code {
 }
 
 // runInv performs one invocation on machine m.
-func runInv(ctx context.Context, m *vm.VirtualMachine, cfg *risor.Config, iv *invocation, code *compiler.Code) (res invResult) {
+func runInv(ctx context.Context, m *vm.VirtualMachine, cfg *risor.Config, failImport *atomic.Bool, iv *invocation, code *compiler.Code) (res invResult) {
+	failImport.Store(iv.FailImport)
 	defer func() {
 		if r := recover(); r != nil {
 			res = invResult{Err: fmt.Sprintf("PANIC-ESCAPED: %v", r)}
@@ -305,9 +333,25 @@ func runC07(rc *fw.RunCtx) {
 	strat := sim.DrawStrategy(sched, 400)
 	s := sim.New(sched, strat, 60000)
 
-	extra := map[string]any{"hpanic": hostPanicBuiltin()}
-	opts := baseOpts(extra)
-	cfg := risor.NewConfig(opts...)
+	var failImport atomic.Bool
+	extra := map[string]any{"hpanic": hostPanicBuiltin(), "maybe_fail": object.NewBuiltin("maybe_fail", func(ctx context.Context, args ...object.Object) object.Object {
+		if failImport.Load() {
+			return object.Errorf("module body failed")
+		}
+		return object.Nil
+	})}
+	var gnames []string
+	for k := range baseGlobals(extra) {
+		gnames = append(gnames, k)
+	}
+	sort.Strings(gnames)
+	mfs := fstest.MapFS{"cmod.risor": &fstest.MapFile{Data: []byte(c07Module)}}
+	newCfg := func() *risor.Config {
+		imp := importer.NewFSImporter(importer.FSImporterOptions{GlobalNames: gnames, SourceFS: mfs, Extensions: []string{".risor"}})
+		return risor.NewConfig(append(baseOpts(extra), risor.WithImporter(imp))...)
+	}
+	cfg := newCfg()      // system under test
+	cfgModel := newCfg() // reference runs use their own importer
 
 	// compile payloads once (shared read-only between the VM under test and the models)
 	codes := make([]*compiler.Code, len(hist))
@@ -332,15 +376,15 @@ func runC07(rc *fw.RunCtx) {
 				}
 				bg := context.Background()
 				if iv.API == "Call" {
-					r := runInv(bg, m, cfg, hist[libIdx], codes[libIdx])
+					r := runInv(bg, m, cfgModel, &failImport, hist[libIdx], codes[libIdx])
 					if r.Err != "" {
 						panic("harness: model library failed: " + r.Err)
 					}
 					for _, j := range stateful {
-						runInv(bg, m, cfg, hist[j], nil)
+						runInv(bg, m, cfgModel, &failImport, hist[j], nil)
 					}
 				}
-				expected[k] = runInv(bg, m, cfg, iv, codes[k])
+				expected[k] = runInv(bg, m, cfgModel, &failImport, iv, codes[k])
 			}
 			if iv.API == "RunCode" {
 				if iv.IsLib && iv.Kind == kNormal {
@@ -405,7 +449,7 @@ func runC07(rc *fw.RunCtx) {
 					s.SetStrategy(sim.Fair{})
 				})
 			}
-			got[k] = runInv(ctxs[k], machine, cfg, iv, codes[k])
+			got[k] = runInv(ctxs[k], machine, cfg, &failImport, iv, codes[k])
 			done[k] = true
 			if iv.Kind == kCancelled || iv.Kind == kDeadline {
 				s.SetStrategy(strat)
@@ -432,7 +476,7 @@ func runC07(rc *fw.RunCtx) {
 		cur = len(hist)
 		ctxT, cancelT := context.WithCancel(context.Background())
 		defer cancelT()
-		r := runInv(ctxT, machine, cfg, &invocation{API: "RunCode"}, compileSrc("1+1", cfg))
+		r := runInv(ctxT, machine, cfg, &failImport, &invocation{API: "RunCode"}, compileSrc("1+1", cfg))
 		if r.String() != "2" {
 			probeErr = fmt.Sprintf("final RunCode(1+1) gave %s", r)
 		}
